@@ -5,8 +5,9 @@ assumptions, not a proof).
 
 Output: one line per law and width
   `LAW <Bundle>.<field> width=<64|32> tested=<N> failed=<M> expected=<holds|fails|observed> [first counterexample: …]`
-then `NOTE average-reducible=<true|false>` (no counterexample to `ChainReducible.ge` for `.average`, as
-stated, at either width) and `LAWS-SUMMARY unexpected=<K>`; exit code 0 iff `K = 0`.
+then `NOTE average-reducible=<true|false>`, `NOTE ward-reducible=<true|false>` (no counterexample to
+`ChainReducible.ge` for `.average` / `.ward`, as stated, at either width) and
+`LAWS-SUMMARY unexpected=<K>`; exit code 0 iff `K = 0`.
 `kodama-laws --time` additionally prints the time per law on stderr.
 
 Expectations
@@ -15,8 +16,12 @@ Expectations
 * `fails`     the law is documented (docstring / file header) as false for floats, or as a hypothesis
               on a chosen domain that the bracketed instantiation deliberately exceeds:
               `LtTrichotomy` (±0), `LwSymm` single/complete (need `LtTrichotomy`), `Reducible…`,
-              `LBClosed`, `ChainReducible` for Ward (rounding), for centroid/median (false even in
-              exact arithmetic), `LwNoNaN` / `UpdClosed` / `ChainReducible.nan` for the arithmetic
+              `LBClosed`, `ChainReducible` for centroid/median (false even in exact arithmetic;
+              for Ward they were `fails` by ROUNDING until the second `fix:` commit of the crate —
+              1 906 violations of `ChainReducible.ge[ward]` in 4.1 million sampled updates — and are
+              `holds` since: with the guarded clamp `if !(least < c) && value < least then least`
+              they are theorems for every `OrderLaws` type, `Spec.reducible_ward`,
+              `Spec.reducibleMin_ward`, `lbClosed_ward`, `chainReducible_ward`), `LwNoNaN` / `UpdClosed` / `ChainReducible.nan` for the arithmetic
               formulas on ALL values (∞ − ∞, overflow), `NumHom.maxValue` for scaling, `∀ x, ¬NaN x`;
               `HalfAddLaws.half_double` / `.mid_ge` / `.mid_notNaN` WITHOUT the domain guard
               (overflow at `−max_value`, `∞ + (−∞)`; with `dom=moderate` they are `holds`);
@@ -75,7 +80,11 @@ def redExpect (restricted : Bool) : Method → Expect
   | .single | .complete => .holds
   | .weighted => if restricted then .holds else .fails
   | .average => .holds   -- since the `fix:` commit 21f2120 (clamp from below); was false before it
-  | .ward | .centroid | .median => .fails
+  -- since the second `fix:` commit (guarded clamp from below): every law using this expectation
+  -- (`Reducible`, `ReducibleMin`, `ReduciblePos`, `LBClosed`, `ChainReducible.ge`) ASSUMES the guarded
+  -- situation `dab ≤ bound ≤ min(dax, dbx)` and is now a theorem from `OrderLaws`; was false before it
+  | .ward => .holds
+  | .centroid | .median => .fails
 
 def redExpectC (restricted : Bool) (m : MethodChain) : Expect := redExpect restricted m.intoMethod
 
@@ -276,6 +285,7 @@ def main (args : List String) : IO UInt32 := do
   IO.println s!"GRID width=32 full={g32.full.size} mid={g32.mid.size} g3={g32.g3.size} g4={g32.g4.size}"
   let mut unexpected := 0
   let mut avgRed := true
+  let mut wardRed := true
   for l in laws ++ halfAddLaws ++ roundModelLaws do
     for (w, run) in [(64, l.run64), (32, l.run32)] do
       match run with
@@ -286,7 +296,9 @@ def main (args : List String) : IO UInt32 := do
         if timing then IO.eprintln s!"TIME {(← IO.monoMsNow) - s0} ms {l.name} width={w}"
         if u then unexpected := unexpected + 1
         if l.name == "ChainReducible.ge[average]" && failed then avgRed := false
+        if l.name == "ChainReducible.ge[ward]" && failed then wardRed := false
   IO.println s!"NOTE average-reducible={avgRed}"
+  IO.println s!"NOTE ward-reducible={wardRed}"
   IO.println s!"LAWS-SUMMARY unexpected={unexpected}"
   let t1 ← IO.monoMsNow
   IO.eprintln s!"elapsed {t1 - t0} ms"
